@@ -69,6 +69,7 @@ type Step struct {
 	Writer  bool            `json:"writer"`
 	Prejoin bool            `json:"prejoin"`
 	Groups  []string        `json:"groups"`
+	Wbind   string          `json:"wbind"`
 	P       int             `json:"p"`
 	Api     string          `json:"api"`
 	G       string          `json:"g"`
@@ -78,6 +79,7 @@ type Step struct {
 	Lim     bool            `json:"lim"`
 	V       int             `json:"v"`
 	Snd     int             `json:"snd"`
+	N       int             `json:"n"`    // burst length
 	Size    int             `json:"size"` // explicit size (driver-made scenarios), 0 = by class
 	X       json.RawMessage `json:"x"`
 	W       bool            `json:"w"`
@@ -533,6 +535,51 @@ func (e *env) read(s *sock, api string, buf int, lim bool) string {
 	return "done"
 }
 
+// readChain issues an asynchronous read whose callback issues the next one
+// (same buffer): completions nest inline until a read parks. Returns the
+// number of completed reads.
+func (e *env) readChain(s *sock, api string, buf int) int {
+	b := s.bufs[buf]
+	done := 0
+	chaining := true // the callback stops re-issuing once this step is over
+	var issue func()
+	issue = func() {
+		e.op++
+		op := e.op
+		e.d.emit(Ev{Ev: "RdCall", P: s.id, Op: op, Api: api, Buf: buf, Cap: len(b)})
+		s.pend = &pending{op: op, api: api}
+		returned := false
+		again := func(err error) {
+			if err == nil {
+				done++
+				if chaining && done < 200 {
+					issue()
+				}
+			}
+		}
+		if api == "AsyncRead" {
+			s.peer.AsyncRead(b, func(err error, n int, addr netip.AddrPort) {
+				ip := ""
+				if addr.IsValid() {
+					ip = addr.Addr().String()
+				}
+				e.rdDone(s, op, api, err, n, ip, int(addr.Port()), !returned)
+				again(err)
+			})
+		} else {
+			s.pc.AsyncReadFrom(b, func(err error, n int, addr net.Addr) {
+				ip, port := addrOf(addr)
+				e.rdDone(s, op, api, err, n, ip, port, !returned)
+				again(err)
+			})
+		}
+		returned = true
+	}
+	issue()
+	chaining = false
+	return done
+}
+
 // ---- writes ----------------------------------------------------------------
 
 func (e *env) kernLoop(s *sock) int {
@@ -831,6 +878,14 @@ func (d *driver) scenario(steps []Step) error {
 				addr = fmt.Sprintf("%s:%d", e.groups[cfg.Groups[0]], e.port)
 			case "if":
 				addr = fmt.Sprintf("%s:%d", d.ifc.ipString(), e.port)
+			case "empty0":
+				addr = ""
+			case "lo0":
+				addr = "localhost:0"
+			case "if0":
+				addr = d.ifc.ipString() + ":0"
+			case "grp0":
+				addr = e.groups[cfg.Groups[0]] + ":0"
 			default:
 				return fmt.Errorf("unknown bind form %q", b)
 			}
@@ -852,7 +907,11 @@ func (d *driver) scenario(steps []Step) error {
 		}
 	}
 	if cfg.Writer {
-		if err := e.openPeer(writerID, ":0"); err != nil {
+		waddr := ":0"
+		if cfg.Wbind == "if0" {
+			waddr = d.ifc.ipString() + ":0"
+		}
+		if err := e.openPeer(writerID, waddr); err != nil {
 			return err
 		}
 	}
@@ -895,45 +954,71 @@ func (d *driver) scenario(steps []Step) error {
 			if p := xString(st.X); p != "" && p != errClass(err) {
 				d.drift("membership result", si+1, p, errClass(err))
 			}
-		case "Send":
-			e.did++
-			n := e.fit(e.sizeOf(st))
-			var fd int
-			var dst unix.SockaddrInet4
-			ev := Ev{Ev: "Send", Did: e.did, Len: n, Loop: 1}
-			if e.kind == "mc" {
-				fd = e.senders[1]
-				ev.G, ev.Port, ev.Mc = e.groups[st.G], e.port, 1
-			} else {
-				rcv := e.socks[1]
-				dip := rcv.ip
-				if dip == "0.0.0.0" {
-					dip = "127.0.0.1"
+		case "Send", "Burst":
+			count := 1
+			if st.A == "Burst" {
+				count = st.N
+				st.Cls = "S"
+			}
+			for k := 0; k < count; k++ {
+				e.did++
+				n := e.fit(e.sizeOf(st))
+				if st.A == "Burst" {
+					n = 1 + d.rng.Intn(64)
 				}
-				var ok bool
-				fd, ok = e.senders[st.Snd]
-				if !ok {
-					fd, _, err = rawUDP(dip, 0, false)
-					if err != nil {
+				var fd int
+				var dst unix.SockaddrInet4
+				ev := Ev{Ev: "Send", Did: e.did, Len: n, Loop: 1}
+				if e.kind == "mc" {
+					snd := st.Snd
+					if snd < 1 {
+						snd = 1
+					}
+					var ok bool
+					if fd, ok = e.senders[snd]; !ok {
+						fd, _, err = rawUDP(d.ifc.ipString(), 0, false)
+						if err != nil {
+							return err
+						}
+						if err := unix.SetsockoptInet4Addr(fd, unix.IPPROTO_IP, unix.IP_MULTICAST_IF, d.ifc.ip); err != nil {
+							return err
+						}
+						e.senders[snd] = fd
+					}
+					ev.G, ev.Port, ev.Mc = e.groups[st.G], e.port, 1
+				} else {
+					rcv := e.socks[1]
+					dip := rcv.ip
+					if dip == "0.0.0.0" {
+						dip = "127.0.0.1"
+					}
+					var ok bool
+					fd, ok = e.senders[st.Snd]
+					if !ok {
+						fd, _, err = rawUDP(dip, 0, false)
+						if err != nil {
+							return err
+						}
+						e.senders[st.Snd] = fd
+					}
+					ev.G, ev.Port = dip, rcv.port
+				}
+				dst = unix.SockaddrInet4{Port: ev.Port, Addr: ip4(ev.G)}
+				ev.Src, ev.Sport, _ = sockName(fd)
+				serr := unix.Sendto(fd, payload(e.did, n), 0, &dst)
+				ev.Err = errClass(serr)
+				d.emit(ev)
+				if serr != nil {
+					return fmt.Errorf("raw sendto %s:%d (%d bytes): %w", ev.G, ev.Port, n, serr)
+				}
+				if k == count-1 {
+					if _, err := e.flush(); err != nil {
 						return err
 					}
-					e.senders[st.Snd] = fd
 				}
-				ev.G, ev.Port = dip, rcv.port
-			}
-			dst = unix.SockaddrInet4{Port: ev.Port, Addr: ip4(ev.G)}
-			ev.Src, ev.Sport, _ = sockName(fd)
-			serr := unix.Sendto(fd, payload(e.did, n), 0, &dst)
-			ev.Err = errClass(serr)
-			d.emit(ev)
-			if serr != nil {
-				return fmt.Errorf("raw sendto %s:%d (%d bytes): %w", ev.G, ev.Port, n, serr)
-			}
-			if _, err := e.flush(); err != nil {
-				return err
-			}
-			if e.kind == "mc" && len(xInts(st.X)) < len(cfg.Binds) {
-				e.nontriv = true
+				if e.kind == "mc" && len(xInts(st.X)) < len(cfg.Binds) || st.A == "Burst" {
+					e.nontriv = true
+				}
 			}
 		case "Rd":
 			s := e.socks[st.P]
@@ -947,6 +1032,21 @@ func (d *driver) scenario(steps []Step) error {
 			}
 			if p := xString(st.X); p == "parked" && got != "parked" || p != "parked" && got == "parked" {
 				d.drift("read completion mode", si+1, p, got)
+			}
+			if st.Buf == 2 {
+				e.nontriv = true
+			}
+		case "Chain":
+			s := e.socks[st.P]
+			if s.pend != nil {
+				d.drift("read issued while one is parked", si+1, "idle", "parked")
+				continue
+			}
+			n := e.readChain(s, st.Api, st.Buf)
+			var want int
+			_ = json.Unmarshal(st.X, &want)
+			if n != want {
+				d.drift("chained completions", si+1, want, n)
 			}
 			if st.Buf == 2 {
 				e.nontriv = true
@@ -969,7 +1069,10 @@ func (d *driver) scenario(steps []Step) error {
 				d.drift("write issued while one is parked", si+1, "idle", "parked")
 				continue
 			}
-			n := e.fit(e.sizeOf(st))
+			n := 65508 // class X: larger than any UDP payload, the write must fail and emit nothing
+			if st.Cls != "X" {
+				n = e.fit(e.sizeOf(st))
+			}
 			got, err := e.write(s, st.Api, dst, dport, n, st.Lim)
 			if err != nil {
 				return err
@@ -1008,9 +1111,8 @@ func (d *driver) scenario(steps []Step) error {
 	if err := e.drain(); err != nil {
 		return err
 	}
-	for _, id := range e.order {
-		s := e.socks[id]
-		e.sample(s, "End")
+	if cfg.Writer {
+		e.sample(e.socks[writerID], "End")
 	}
 	if e.nontriv {
 		d.sum.Nontrivial++
